@@ -120,6 +120,12 @@ def handle (fs : List String) : String :=
       | some k => showRun v (stepWithFault v k)
       | none => "bad-op"
     | _, _ => "bad-op"
+  | ["cancelled", afterPut] =>
+    -- the request's context is cancelled after the write of the lease record / of the index entry: a failure of the
+    -- NEXT step like any other (`C06.failed_register_leaves_nothing`): error, the secret revoked, no record left; after
+    -- the index entry nothing is left to fail — the secret is handed out with both records
+    if afterPut == "sys/expire/id/" then "err|newlease:0|newindex:0|live:0"
+    else if afterPut == "sys/expire/token/" then "ok|newlease:1|newindex:1|live:1" else "bad-op"
   | ["regrefused", role] =>
     -- a creation whose lease registration is refused hands out nothing and leaves no usable token (the token written
     -- before the registration is revoked again): `rel..1` is refused, `rel.1` is the control
